@@ -24,6 +24,7 @@ type vTransport struct {
 	releaseIDs, releaseCounts        []uint32
 	delivered                        []rpccp.Message_Which // messages whose send succeeded
 	conn                             *Conn
+	onSend                           func(w rpccp.Message_Which) // runs inside send, where another goroutine could run
 }
 
 func (t *vTransport) NewMessage(ctx context.Context) (rpccp.Message, func() error, capnp.ReleaseFunc, error) {
@@ -60,6 +61,9 @@ func (t *vTransport) NewMessage(ctx context.Context) (rpccp.Message, func() erro
 		}
 		if t.conn != nil {
 			vAssert(vLocksHeld() == 0, "C09.transport.send-called-without-conn-mutex")
+		}
+		if t.onSend != nil {
+			t.onSend(msg.Which())
 		}
 		if t.faultSend && vNondetBool() {
 			return vFault{}
